@@ -1262,3 +1262,31 @@ V("dyn-c17-silent-unrelated-rebinding", "C17", "silent", UT, "def sorted_tuple("
   what="a function this check never analyses is rebound")
 V("dyn-c14-setattr-hook", "C14", "fire", LG, "    def sample(self, n=100, population=False,", "    def __setattr__(self, name, value):\n        object.__setattr__(self, name, value)\n\n    def sample(self, n=100, population=False,",
   rule=None, what="the model class intercepts attribute assignment: outside the modelled subset", accept_inconclusive=True)
+_TOPO_HEAD = "    # Work on the zero pattern only: weights may be negative or cancel\n"
+V("r7-c03-fast-path-one-node", "C03", "fire", UT, _TOPO_HEAD, "    if len(A) < 2:\n        return list(range(len(A)))\n" + _TOPO_HEAD, rule="TOPO.fast-path",
+  what="a 1 x 1 matrix with a non-zero entry (self-loop) is accepted by a trivial-graph fast path")
+V("r7-c03-silent-fast-path-empty", "C03", "silent", UT, _TOPO_HEAD, "    if len(A) == 0:\n        return list(range(len(A)))\n" + _TOPO_HEAD,
+  what="fast path for the graph without nodes only")
+V("r7-c19-validation-loop-returns", "C19", "fire", SE, "                elif i <= 0:\n                    raise ValueError(_N_TYPE_ERROR)\n        return None\n",
+  "                elif i <= 0:\n                    raise ValueError(_N_TYPE_ERROR)\n                return None\n", rule="CONTRACT.every-entry",
+  what="only the first entry of a list n is validated")
+_CHAIN_TEST = "    return (A == chain_graph(p)).all()\n"
+for _p in ("C07", "C10"):
+    V("r7-%s-chain-test-by-degrees" % _p.lower(), _p, "fire", UT, _CHAIN_TEST,
+      "    edges = A != 0\n    return bool(edges.sum() == p - 1 and (edges.sum(axis=0) <= 1).all() and (edges.sum(axis=1) <= 1).all())\n", rule="CHAIN.test",
+      what="any directed path through all nodes is taken for the chain 0 -> 1 -> ... -> p-1")
+    V("r7-%s-chain-test-on-pattern" % _p.lower(), _p, "silent" if _p == "C07" else "fire", UT, _CHAIN_TEST, "    return ((A != 0) == chain_graph(p)).all()\n",
+      rule=None if _p == "C07" else "PAT", what="weighted chains in natural order take the shortcut too: fine for mec (0/1 members), wrong for imec "
+      "(chain_graph_IMEC compares the members with the raw weights)")
+_NA = "    return neighbors(y, A) & adj(x, A)\n"
+V("r7-c15-na-one-sided-filter", "C15", "fire", UT, _NA, "    return set(t for t in neighbors(y, A) if A[x, t] != 0)\n", rule="PW.relation", what="neighbours of y that are parents of x are dropped")
+V("r7-c15-silent-na-two-sided-filter", "C15", "silent", UT, _NA, "    return set(t for t in neighbors(y, A) if A[x, t] != 0 or A[t, x] != 0)\n", what="adjacency to x tested entry by entry, both directions")
+_DE = "    fro, to = np.where(only_directed(A))\n    return list(zip(fro, to))\n"
+V("r7-c16-directed-edges-by-difference", "C16", "fire", UT, _DE, "    fro, to = np.where(A != 0)\n    edges = set(zip(fro, to)) - set(undirected_edges(A))\n    return sorted(edges)\n",
+  rule="PW.table", what="undirected_edges lists one orientation only: the other one survives as a directed edge")
+_ANM_ASSIGN = "                assignment = np.transpose(self.assignments[i](X[:, self.A[:, i] != 0]))\n"
+V("r7-c02-assignment-dropped-by-ndim", "C02", "fire", AN, _ANM_ASSIGN,
+  "                assignment = self.assignments[i](X[:, self.A[:, i] != 0])\n                assignment = np.transpose(assignment) if np.ndim(assignment) > 0 else 0\n",
+  rule="CASES.anm", what="scalar-returning assignments are replaced by 0")
+V("r7-c02-silent-loop-local-temporary", "C02", "silent", AN, _ANM_ASSIGN, "                parents = self.A[:, i] != 0\n                assignment = np.transpose(self.assignments[i](X[:, parents]))\n",
+  what="a temporary rebound in every iteration", accept_inconclusive=True)
